@@ -40,7 +40,7 @@ def batch_obligations(prefix, fam, harness, defines, variant="dbg", truncations=
         maxn = max(len(s["bytes"]) for s in b)
         src = sk.c_cases(b, limit, truncations)
         obls.append(Obl("%s_batch%03d_%s" % (prefix, bi, variant), harness, defines, variant=variant, unwind=maxn + extra_unwind + int(defines.get("P_SUFFIX", 0) or 0),
-                        unwindset=tight_unwindset(b) if ptrcheck else [],
+                        unwindset=tight_unwindset(b) if ptrcheck else ["_cbor_highest_bit.0:66"],
                         gen_src={"cases.h": src}, timeout=timeout, leak=leak, funcs=funcs or [], mem_gb=mem_gb, flags=flags or [], ptrcheck=ptrcheck,
                         desc=desc, bounds="%d skeletons, <= %d bytes each%s; all data bytes symbolic" % (len(b), maxn, ", every truncation offset" if truncations else ""),
                         sample={"skeletons": [{"heads": s["name"], "bytes": " ".join("??" if x < 0 else "%02x" % x for x in s["bytes"]), "expected": repr(s["outcome"])} for s in b[:3]]}))
@@ -60,7 +60,7 @@ def tree_obligations(prefix, fam, defines, variant="dbg", weight_cap=120, max_ca
         maxnodes = max(len(s["outcome"].nodes) for s in b)
         src = sk.c_trees(b)
         obls.append(Obl("%s_batch%03d_%s" % (prefix, bi, variant), "h_ser.c", defines, variant=variant, unwind=max(maxn + 9 * maxnodes + 8, 52),
-                        unwindset=tight_unwindset(b) if ptrcheck else [],
+                        unwindset=tight_unwindset(b) if ptrcheck else ["_cbor_highest_bit.0:66"],
                         gen_src={"trees.h": src}, timeout=timeout, leak=leak, funcs=funcs or [], mem_gb=mem_gb, flags=flags or [], ptrcheck=ptrcheck,
                         desc=desc, bounds="%d trees (<= %d nodes each); all scalar values and payload bytes symbolic" % (len(b), maxnodes),
                         sample={"trees": [{"name": s["name"], "nodes": len(s["outcome"].nodes), "built_by": "construction API" if s.get("built") else "cbor_load"} for s in b[:4]]}))
@@ -80,4 +80,4 @@ def tight_unwindset(batch):
     unrolling garbage sizes to the uniform bound, so the failed memory-safety property is reported instead of a timeout."""
     D = max([s["outcome"].depth for s in batch] + [max((len(s["outcome"].nodes) for s in batch), default=1) if any(s.get("built") for s in batch) else 0]) + 3
     C = max([x["n"] for s in batch for x in s["outcome"].nodes if x["kind"] not in (sk.X_UINT, sk.X_NEGINT, sk.X_TAG, sk.X_CTRL)] + [1]) + 2
-    return ["%s:%d" % (f, D) for f in REC_FUNCS] + ["%s:%d" % (l, C) for l in REC_LOOPS]
+    return ["%s:%d" % (f, D) for f in REC_FUNCS] + ["%s:%d" % (l, C) for l in REC_LOOPS] + ["_cbor_highest_bit.0:66"]
